@@ -676,9 +676,21 @@ func handleRename(params internal.HandlerFuncParams) ([]byte, error) {
 		return nil, errors.New("no such key")
 	}
 
+	// Renaming a key to itself changes nothing.
+	if oldKey == newKey {
+		return []byte("+OK\r\n"), nil
+	}
+
+	// The expiry time moves with the value.
+	expireAt := params.GetExpiry(params.Context, oldKey)
+	replacedExpireAt := params.GetExpiry(params.Context, newKey)
+
 	// Set the new key with the old value
 	if err := params.SetValues(params.Context, map[string]interface{}{newKey: oldValue}); err != nil {
 		return nil, err
+	}
+	if expireAt != (time.Time{}) || replacedExpireAt != (time.Time{}) {
+		params.SetExpiry(params.Context, newKey, expireAt, false)
 	}
 
 	// Delete the old key
